@@ -14,6 +14,17 @@ Theorem C20_dial_policy :
 Proof. exact dial_policy_some. Qed.
 Print Assumptions C20_dial_policy.
 
+(* dial_options.authority: when configured, every request the servers see (the reflection request and
+   every call) carries it as :authority; when not, the address that was dialled *)
+Theorem C20_authority :
+  (forall configured addr,
+     (configured = [] -> conn_authority configured addr = addr) /\
+     (configured <> [] -> conn_authority configured addr = configured)) /\
+  (forall configured t r any a,
+     configured <> [] -> In a (run_authorities configured t r any) -> a = configured).
+Proof. split; [exact conn_authority_spec|exact run_authorities_configured]. Qed.
+Print Assumptions C20_authority.
+
 (* The transport under that policy, against ANY stateful target: the outcomes the guns decided reach
    the target as exactly the sent ones, one call each, in order, and every sample code is the
    conversion of the answer to that very call (a call answered UNAVAILABLE is a failed sample, it is
